@@ -69,7 +69,7 @@ def gen_cases(rng, tier):
       for key in ("pair", "density", "embed"):
         ents = m.get(key) or []
         if ents:
-          ents[-1][-1] = spec.gen_nested_same_start(rng)[0]
+          ents[-1][-1] = spec.gen_nested_same_start(rng, leading=(i % 6 == 2))[0]
     if i % 7 == 2:
       # two entries that use one form with parameter lists differing only by -1 versus -2 (hash(-1) == hash(-2) in CPython):
       # each entry means its own parameters
